@@ -95,10 +95,31 @@ def emit_state_fn(R, which, contract=None, loop_contracts=None):
         b = R.sub("R5-begin", r'self->state\.begin\(\)', 'self->state', b)
         b = R.sub("R5-data", r'\bx\.data\(\)', 'x', b)
         R.require({"R6-range-for": 1, "R5-iter-decl": 2, "R5-iter-deref-inc": 2, "R5-copy_n": 1})
+    elif which in ("setState", "setPDFvalues"):
+        arg = "new_state" if which == "setState" else "new_values"
+        mem = "state" if which == "setState" else "pdf_values"
+        (p,) = X.cut(CPP, r'void\s+TasmanianDREAM::%s\s*\(\s*const\s+std::vector<double>\s*&%s\s*\)' % (which, arg), text)
+        chdr = "void TasmanianDREAM_%s_vec(TasmanianDREAM *self, const double *%s, size_t %s_size)" % (which, arg, arg)
+        b = p.body
+        b = X.r9_throws(R, b)
+        b = R.sub("R5-size", r'\b%s\.size\(\)' % arg, arg + '_size', b)
+        b = R.sub("R5-vector-assign", r'\b%s\s*=\s*%s\s*;' % (mem, arg), 'tsg_copy_n_double(%s, %s_size, self->%s);' % (arg, arg, mem), b)
+        for mname in ("num_chains", "num_dimensions", "init_state", "init_values"):
+            b = R.sub("R10-member", r'(?<![\w.>])%s\b' % mname, 'self->' + mname, b)
+        R.require({"R5-vector-assign": 1, "R9-throw-runtime_error": 1})
+    elif which == "saveStateHistory":
+        (p,) = X.cut(CPP, r'void\s+TasmanianDREAM::saveStateHistory\s*\(\s*size_t\s+num_accepted\s*\)', text)
+        chdr = "void TasmanianDREAM_saveStateHistory(TasmanianDREAM *self, size_t num_accepted)"
+        b = p.body
+        b = R.sub("R12-history-append", r'\bhistory\.insert\(\s*history\.end\(\)\s*,\s*state\.begin\(\)\s*,\s*state\.end\(\)\s*\)\s*;', 'hist_append(self, self->state, self->num_chains * self->num_dimensions);', b)
+        b = R.sub("R12-history-append", r'\bpdf_history\.insert\(\s*pdf_history\.end\(\)\s*,\s*pdf_values\.begin\(\)\s*,\s*pdf_values\.end\(\)\s*\)\s*;', 'pdf_hist_append(self, self->pdf_values, self->num_chains);', b)
+        b = R.sub("R10-member", r'(?<![\w.>])accepted\b', 'self->accepted', b)
+        R.require({"R12-history-append": 2, "R10-member": 1})
     else:
         raise X.ExtractionBreak("unknown state function " + which)
     X.check_leftover(chdr + b, which)
     out = '#line %d "%s"\n' % (p.line, X.REPO + "/" + p.rel) + X.splice(chdr, b, contract, loop_contracts)
     info = {"functions": [{"name": "TasmanianDREAM::" + which, "file": p.rel, "line": p.line, "loops": X.count_loops(b)}],
-            "fidelity": X.fidelity(p.src_body, b, extra_vocab=["state", "num_dimensions", "auto", "xv", "x", "ik", "ij", "begin", "data", "copy_n"], slack=2)}
+            "fidelity": X.fidelity(p.src_body, b, extra_vocab=["state", "num_dimensions", "auto", "xv", "x", "ik", "ij", "begin", "data", "copy_n", "new_state", "new_values", "pdf_values", "history", "pdf_history", "insert", "end", "size",
+                                                               "num_chains", "init_state", "init_values", "accepted", "runtime_error", "="], slack=4)}
     return out, info
